@@ -194,6 +194,10 @@ func (w *World) read(ctx context.Context, field string) error {
 			case <-time.After(600 * time.Millisecond):
 			}
 			return nil
+		case "cancelown":
+			// the error of a cancelled call of the resolver's own (a downstream request with a context of its own),
+			// while the computation's context is alive: a failing resolver like any other
+			return context.Canceled
 		case "safe":
 			return graphql.NewSafeError("safe failure in %s", field)
 		case "panic":
